@@ -81,22 +81,24 @@ def run_kit(kit, tier, seed_, budget):
 
 def selftest(kit, recs, bad):
     """Binding self-test: corrupt one field of accepted records; every corruption must be
-    rejected at exactly that record."""
+    rejected at exactly that record (and by the clause that owns the corrupted field)."""
     rng = random.Random(7)
+    directed = kit.name == "DH"
+    E2N, N2E = ("tail", "nout") if directed else ("e2n", "n2e")
     good = [r for r in recs if r["rid"] not in bad and r["res"] == "ok" and r["post"]["edges"]
-            and any(r["post"]["e2n"])]
+            and any(r["post"][E2N]) and r["pre"] != r["post"]]
     if len(good) < 3:
         raise MachineryError("self-test: not enough accepted records")
     muts = []
-    for r in rng.sample(good, min(6, len(good))):
+    for r in rng.sample(good, min(9, len(good))):
         m = json.loads(json.dumps(r))
         kind = len(muts) % 3
         post = m["post"]
-        if kind == 0:  # node forgets one membership
-            i = next(i for i, es in enumerate(post["n2e"]) if es) if any(post["n2e"]) else None
-            if i is None:
+        if kind == 0:  # a node forgets one membership
+            idx = [i for i, es in enumerate(post[N2E]) if es]
+            if not idx:
                 continue
-            post["n2e"][i] = post["n2e"][i][1:]
+            post[N2E][idx[0]] = post[N2E][idx[0]][1:]
             expect = "Integrity"
         elif kind == 1:  # stale id counter
             ints = [e for e in post["edges"] if 0 <= e < 100]
@@ -104,15 +106,13 @@ def selftest(kit, recs, bad):
                 continue
             post["uid"] = max(ints)
             expect = "UidFresh"
-        else:  # an edge loses a member on both sides consistently: only the refinement notices
-            i = next(i for i, ms in enumerate(post["e2n"]) if ms)
-            n = post["e2n"][i][0]
+        else:  # an edge loses a member consistently on both sides: only the refinement notices
+            i = next(i for i, ms in enumerate(post[E2N]) if ms)
+            n = post[E2N][i][0]
             e = post["edges"][i]
-            post["e2n"][i] = post["e2n"][i][1:]
+            post[E2N][i] = post[E2N][i][1:]
             ni = post["nodes"].index(n)
-            post["n2e"][ni] = [x for x in post["n2e"][ni] if x != e]
-            if m["pre"] == post:
-                continue
+            post[N2E][ni] = [x for x in post[N2E][ni] if x != e]
             expect = "C05:"
         m["rid"] = "selftest." + r["rid"] + f".{kind}"
         muts.append((m, expect))
@@ -167,7 +167,7 @@ def core_check(prop, tier, seed_):
             hs = [r for r in recs if r["dir"] == "C2S"][:6]
             cov["samples"] = [{"rid": r["rid"], "gamma": r["gamma"], "op": json.loads(core.op_digest(r["op"])),
                                "res": r["res"], "post_nodes": r["post"]["nodes"], "post_edges": r["post"]["edges"],
-                               "post_e2n": r["post"]["e2n"]} for r in hs]
+                               "post_members": r["post"].get("e2n", r["post"].get("tail"))} for r in hs]
         byrid = {r["rid"]: r for r in recs}
         for rid, clauses in bad.items():
             r = byrid[rid]
